@@ -71,6 +71,7 @@ class Session:
 
         self.decryptor: Decryptor
         self.decryptor = None
+        self.tls_version = TlsVersion.UNDEFINED  # until a ServerHello has been parsed
 
         self.handle_packet(packet)
 
